@@ -2,13 +2,15 @@
 import ast
 from ..affine import Lin, ge, decide
 from ..front import dotted, const_value, unparse, walk_no_nested, parent_map, kwarg
-from ..core import holds, violation, unrecognised
+from ..core import holds, violation, unrecognised, named
 from ..flow import AbsInt
 from ..rules import decide_states
 
 ID = "C16"
 ANCHORS = 'io.read_meme,io._interleave_loci,io.extract_loci'.split(",")
 MIN_INSTANCES = 10
+# rule families whose findings in this module are derived by an engine (not by comparing spellings): exempt from the rewrite gate
+SEMANTIC_RULES = {"WINDOW"}
 EXPLANATION = (
     "R-FLUSH (read_meme): the line parser is a three-state machine; the rule requires that a motif is committed in the same "
     "iteration that reads its last matrix row (after the row counter reaches the declared width) so that no following line is "
@@ -70,7 +72,7 @@ def count_filter_rule(fi, loop, role):
         rest = [c for c in conj if c not in nul and c not in truthy and c not in cmps and
                 unparse(c) not in ("signals is not None",)]
         if truthy:
-            out.append(violation("FILTER", fi, r, "the filter is guarded by the truth value of `%s` (`%s`): a threshold of 0 is a legal value and "
+            out.append(named("FILTER", fi, r, "the filter is guarded by the truth value of `%s` (`%s`): a threshold of 0 is a legal value and "
                                  "silently disables the filter; the documented switch is `%s is not None`" % (p, unparse(n.test), p), n))
             continue
         if rest or len(cmps) != 1 or not nul:
@@ -242,11 +244,11 @@ def interleave_rules(repo):
             else:
                 out.append(unrecognised("INTERLEAVE", fi, role, t, key[0]))
         elif flt and loop.body.index(flt[0]) > loop.body.index(key[0]):
-            out.append(violation("INTERLEAVE", fi, role, "the key is computed before the chromosome filter: after filtering the keys no longer "
+            out.append(named("INTERLEAVE", fi, role, "the key is computed before the chromosome filter: after filtering the keys no longer "
                                  "enumerate the kept rows, so the sort does not give a round-robin order of the kept loci", key[0],
                                  witness={"sets": 2, "chroms": "given", "set0": "excluded locus listed before kept ones"}))
         elif not app or loop.body.index(app[0]) < loop.body.index(key[0]):
-            out.append(violation("INTERLEAVE", fi, role, "frame is appended before its key is set", key[0]))
+            out.append(named("INTERLEAVE", fi, role, "frame is appended before its key is set", key[0]))
         else:
             out.append(holds("INTERLEAVE", fi, role, t, key[0]))
     role = "the concatenated frame is ordered by the interleave key"
